@@ -422,6 +422,78 @@ class Case:
         except bp.WorkersJoined:
             raise WorkersJoinedSeen()
 
+    def drain_block(self, events):
+        """events = [drain_begin, (ack | ready | advance | join_shutdown)*, drain_end]: ONE real call of
+        ResultHandler.finish_at_shutdown (the drain loop a closed pool's result handler runs until its
+        cache is empty).  Its poll() is scripted: a message event is handed to the loop as the next
+        message, an `advance` is an idle round (the clock moves on, nothing arrives); the history names
+        the supervision pass the loop runs after each round as `join_shutdown`.  One observation per
+        event; a pass the history expects and the loop does not run is observed as 'PassSkipped'."""
+        p = self.pool
+        rh = p._result_handler
+        plan = list(events[1:-1])
+        out = [self.observe(None, None)]
+        case = self
+        pending = []
+
+        def flush_pending():
+            while pending:
+                pending.pop(0)
+                out.append(case.observe(None, None))
+
+        def fake_poll(timeout=None):
+            flush_pending()
+            while plan and plan[0][0] == 'join_shutdown':
+                plan.pop(0)
+                out.append(case.observe('PassSkipped', None))
+            while plan and plan[0][0] == 'wait':
+                # time passes while the loop is waiting in poll(); then the next message arrives
+                CLOCK[0] += plan.pop(0)[1]
+                out.append(case.observe(None, None))
+            if not plan:
+                raise EOFError('script over')
+            ev = plan.pop(0)
+            if ev[0] == 'advance':
+                CLOCK[0] += ev[1]
+                out.append(case.observe(None, None))
+                return False, None
+            job = case.jobs[ev[1]]
+            if ev[0] == 'ack':
+                msg = (bp.ACK, (job._job, ev[2], CLOCK[0], FakeProcess.all[ev[3]].pid, None))
+            else:
+                ok, tag = ev[3], ev[4]
+                val = tag if ok else Exc(tag)
+                msg = (bp.READY, (job._job, ev[2], (bool(ok), val), None))
+            pending.append(ev)
+            return True, msg
+
+        real_join = rh.join_exited_workers
+
+        def join(shutdown=False):
+            flush_pending()
+            if plan and plan[0][0] == 'join_shutdown':
+                plan.pop(0)
+                try:
+                    real_join(shutdown=shutdown)
+                except bp.WorkersJoined:
+                    out.append(case.observe(None, 'WorkersJoined'))
+                    raise
+                out.append(case.observe(None, None))
+            else:
+                real_join(shutdown=shutdown)     # a pass the history did not name: shows as a difference
+        saved = rh.poll, rh.join_exited_workers
+        rh.poll, rh.join_exited_workers = fake_poll, join
+        try:
+            rh.finish_at_shutdown()
+        finally:
+            rh.poll, rh.join_exited_workers = saved
+        flush_pending()
+        while plan:
+            ev = plan.pop(0)
+            out.append(self.observe('NotReached' if ev[0] != 'join_shutdown' else 'PassSkipped', None))
+        out.append(self.observe(None, None))
+        return out
+
     def ev_scan(self, lingers=False):
         p = self.pool
         if p._timeout_handler is None:
@@ -989,6 +1061,20 @@ class Case:
                 if res and res[0] == 'BEGIN':
                     res[0] = begin_obs
                 out.extend(res)
+                continue
+            if ev[0] == 'drain_begin':
+                block = [ev]
+                while events and block[-1][0] != 'drain_end':
+                    block.append(events.pop(0))
+                signal.alarm(EVENT_TIMEOUT)
+                try:
+                    out.extend(self.drain_block(block))
+                except Hang:
+                    out.append(self.observe(None, 'Hang'))
+                    signal.alarm(0)
+                    break
+                finally:
+                    signal.alarm(0)
                 continue
             ret = exc = None
             signal.alarm(EVENT_TIMEOUT)
